@@ -339,5 +339,6 @@ def run_check(spec, tier, seed, replay=None):
                     return ioc == "ok" and moc == "ok" and part.diff(c, io, mo) is not None
                 small = core.ddmin(h[:d + 1], fails, budget=80)
                 rep.violation("correspondence", dict(kind="correspondence", source=name, part=part.name, op_index=d, impl=il[:300], model=ml[:300]),
-                              small, False, "model and implementation diverge (op %d of %s)" % (d, name))
+                              small, bool(getattr(part, "divergence_is_property_failure", False)),
+                              "model and implementation diverge (op %d of %s)" % (d, name))
     return rep.finish()
